@@ -534,3 +534,297 @@ pub fn ddmin<T: Clone>(items: Vec<T>, test: &mut dyn FnMut(&[T]) -> bool) -> Vec
 pub fn hex64(v: u64) -> String {
     format!("{:016x}", v)
 }
+
+// ---------------------------------------------------------------------------------------
+// Supervisor: runs in worker *processes*, because two failure modes of the
+// system under test (stack overflow, abort) kill the process they happen in.
+// ---------------------------------------------------------------------------------------
+
+/// What a worker reports for one run.
+#[derive(Clone, Debug)]
+pub struct RunReport {
+    pub k: u64,
+    pub digest: u64,
+    pub trace: u64,
+    pub nontrivial: bool,
+    /// Some((found json)) when the run ended in a violation
+    pub found: Option<Value>,
+}
+
+pub enum WorkerLine {
+    Run(RunReport),
+    Stats(Value),
+}
+
+/// Worker side: print one line per run / stats block on stdout.
+pub fn worker_emit_run(r: &RunReport) {
+    use std::io::Write;
+    let out = std::io::stdout();
+    let mut o = out.lock();
+    let _ = writeln!(
+        o,
+        "R {} {:016x} {:016x} {}",
+        r.k,
+        r.digest,
+        r.trace,
+        if r.nontrivial { 1 } else { 0 }
+    );
+    if let Some(f) = &r.found {
+        let _ = writeln!(o, "F {} {}", r.k, f);
+    }
+    let _ = o.flush();
+}
+
+pub fn worker_emit_stats(v: &Value) {
+    use std::io::Write;
+    let out = std::io::stdout();
+    let mut o = out.lock();
+    let _ = writeln!(o, "S {}", v);
+    let _ = o.flush();
+}
+
+pub fn worker_emit_done() {
+    use std::io::Write;
+    println!("D");
+    let _ = std::io::stdout().flush();
+}
+
+#[derive(Default)]
+pub struct Supervised {
+    pub runs: Vec<RunReport>,
+    pub stats: Vec<Value>,
+    /// (k, description of how the worker process died)
+    pub deaths: Vec<(u64, String)>,
+    pub harness_errors: Vec<String>,
+}
+
+fn describe_exit(st: &std::process::ExitStatus) -> String {
+    use std::os::unix::process::ExitStatusExt;
+    if let Some(sig) = st.signal() {
+        let name = match sig {
+            6 => "SIGABRT",
+            11 => "SIGSEGV",
+            9 => "SIGKILL",
+            4 => "SIGILL",
+            7 => "SIGBUS",
+            8 => "SIGFPE",
+            _ => "signal",
+        };
+        format!("{}({})", name, sig)
+    } else {
+        format!("exit({})", st.code().unwrap_or(-1))
+    }
+}
+
+/// Parent side: run indices 0..n in worker processes
+/// (`exe <target> --mode worker --from a --to b` + the forwarded options).
+pub fn supervise(cli: &Cli, n: u64, forward: &[(&str, String)], per_run_timeout_s: u64) -> Supervised {
+    use std::io::{BufRead, BufReader};
+    use std::process::{Command, Stdio};
+    let chunk = (n / (cli.workers as u64 * 8)).clamp(8, 2000);
+    let next = AtomicU64::new(0);
+    let result = Mutex::new(Supervised::default());
+    std::thread::scope(|s| {
+        for _ in 0..cli.workers {
+            s.spawn(|| {
+                let mut local = Supervised::default();
+                loop {
+                    let a = next.fetch_add(chunk, Ordering::Relaxed);
+                    if a >= n {
+                        break;
+                    }
+                    let b = (a + chunk).min(n);
+                    let mut from = a;
+                    while from < b {
+                        let mut cmd = Command::new(&cli.exe);
+                        cmd.arg(&cli.target)
+                            .arg("--mode")
+                            .arg("worker")
+                            .arg("--from")
+                            .arg(from.to_string())
+                            .arg("--to")
+                            .arg(b.to_string())
+                            .arg("--seed")
+                            .arg(cli.seed.to_string())
+                            .arg("--tier")
+                            .arg(cli.tier.name())
+                            .env("VERIF_ROOT", verif_root())
+                            .stdin(Stdio::null())
+                            .stdout(Stdio::piped())
+                            .stderr(Stdio::null());
+                        for (k, v) in forward {
+                            cmd.arg(format!("--{}", k)).arg(v);
+                        }
+                        let mut child = match cmd.spawn() {
+                            Ok(c) => c,
+                            Err(e) => {
+                                local.harness_errors.push(format!("cannot spawn worker: {}", e));
+                                from = b;
+                                break;
+                            }
+                        };
+                        let pid = child.id();
+                        let stdout = child.stdout.take().unwrap();
+                        // watchdog: kill the worker when no line arrives for too long
+                        let last = std::sync::Arc::new(AtomicU64::new(0));
+                        let finished = std::sync::Arc::new(std::sync::atomic::AtomicBool::new(false));
+                        let (l2, f2) = (last.clone(), finished.clone());
+                        let t0 = Instant::now();
+                        let wd = std::thread::spawn(move || {
+                            while !f2.load(Ordering::Relaxed) {
+                                std::thread::sleep(std::time::Duration::from_millis(200));
+                                let idle = t0.elapsed().as_secs().saturating_sub(l2.load(Ordering::Relaxed));
+                                if idle > per_run_timeout_s {
+                                    unsafe {
+                                        extern "C" {
+                                            fn kill(pid: i32, sig: i32) -> i32;
+                                        }
+                                        kill(pid as i32, 9);
+                                    }
+                                    return true;
+                                }
+                            }
+                            false
+                        });
+                        let mut done = false;
+                        let mut next_k = from;
+                        for line in BufReader::new(stdout).lines() {
+                            let line = match line {
+                                Ok(l) => l,
+                                Err(_) => break,
+                            };
+                            last.store(t0.elapsed().as_secs(), Ordering::Relaxed);
+                            if let Some(rest) = line.strip_prefix("R ") {
+                                let p: Vec<&str> = rest.split(' ').collect();
+                                if p.len() == 4 {
+                                    let k = p[0].parse::<u64>().unwrap_or(0);
+                                    local.runs.push(RunReport {
+                                        k,
+                                        digest: u64::from_str_radix(p[1], 16).unwrap_or(0),
+                                        trace: u64::from_str_radix(p[2], 16).unwrap_or(0),
+                                        nontrivial: p[3] == "1",
+                                        found: None,
+                                    });
+                                    next_k = k + 1;
+                                }
+                            } else if let Some(rest) = line.strip_prefix("F ") {
+                                if let Some((k, js)) = rest.split_once(' ') {
+                                    let k = k.parse::<u64>().unwrap_or(0);
+                                    if let Ok(v) = serde_json::from_str::<Value>(js) {
+                                        if let Some(r) = local.runs.iter_mut().rev().find(|r| r.k == k) {
+                                            r.found = Some(v);
+                                        }
+                                    }
+                                }
+                            } else if let Some(rest) = line.strip_prefix("S ") {
+                                if let Ok(v) = serde_json::from_str::<Value>(rest) {
+                                    local.stats.push(v);
+                                }
+                            } else if line == "D" {
+                                done = true;
+                            }
+                        }
+                        let status = child.wait();
+                        finished.store(true, Ordering::Relaxed);
+                        let timed_out = wd.join().unwrap_or(false);
+                        if done {
+                            from = b;
+                        } else if timed_out {
+                            local.harness_errors.push(format!(
+                                "worker watchdog: run {} produced no result within {} s (wall clock is never a verdict)",
+                                next_k, per_run_timeout_s
+                            ));
+                            from = next_k + 1;
+                        } else {
+                            let how = status.map(|s| describe_exit(&s)).unwrap_or_else(|e| e.to_string());
+                            local.deaths.push((next_k, how));
+                            from = next_k + 1;
+                        }
+                    }
+                }
+                let mut r = result.lock().unwrap();
+                r.runs.extend(local.runs);
+                r.stats.extend(local.stats);
+                r.deaths.extend(local.deaths);
+                r.harness_errors.extend(local.harness_errors);
+            });
+        }
+    });
+    let mut r = result.into_inner().unwrap();
+    r.runs.sort_by_key(|x| x.k);
+    r.deaths.sort();
+    r
+}
+
+/// Run one case file in a child process (`exe <target> --mode one --case FILE`).
+/// Returns Ok(Some(found json)) / Ok(None) / Err(description of process death).
+pub fn run_isolated(cli: &Cli, case: &Value, timeout_s: u64) -> Result<Option<Value>, String> {
+    use std::process::{Command, Stdio};
+    static N: AtomicU64 = AtomicU64::new(0);
+    let dir = verif_root().join("target").join("cases");
+    let _ = std::fs::create_dir_all(&dir);
+    let path = dir.join(format!(
+        "case-{}-{}.json",
+        std::process::id(),
+        N.fetch_add(1, Ordering::Relaxed)
+    ));
+    if std::fs::write(&path, case.to_string()).is_err() {
+        return Err("cannot write case file".into());
+    }
+    let child = Command::new(&cli.exe)
+        .arg(&cli.target)
+        .arg("--mode")
+        .arg("one")
+        .arg("--case")
+        .arg(&path)
+        .env("VERIF_ROOT", verif_root())
+        .stdin(Stdio::null())
+        .stdout(Stdio::piped())
+        .stderr(Stdio::null())
+        .spawn();
+    let mut child = match child {
+        Ok(c) => c,
+        Err(e) => return Err(format!("spawn failed: {}", e)),
+    };
+    let t0 = Instant::now();
+    let reader = child.stdout.take().map(|mut so| {
+        std::thread::spawn(move || {
+            use std::io::Read;
+            let mut out = String::new();
+            let _ = so.read_to_string(&mut out);
+            out
+        })
+    });
+    let status = loop {
+        match child.try_wait() {
+            Ok(Some(s)) => break s,
+            Ok(None) => {
+                if t0.elapsed().as_secs() > timeout_s {
+                    let _ = child.kill();
+                    let _ = child.wait();
+                    let _ = std::fs::remove_file(&path);
+                    return Err("watchdog timeout".into());
+                }
+                std::thread::sleep(std::time::Duration::from_millis(2));
+            }
+            Err(e) => return Err(e.to_string()),
+        }
+    };
+    let out = reader.and_then(|r| r.join().ok()).unwrap_or_default();
+    let _ = std::fs::remove_file(&path);
+    let mut found = None;
+    let mut done = false;
+    for line in out.lines() {
+        if let Some(rest) = line.strip_prefix("F ") {
+            if let Some((_, js)) = rest.split_once(' ') {
+                found = serde_json::from_str::<Value>(js).ok();
+            }
+        } else if line == "D" {
+            done = true;
+        }
+    }
+    if !done {
+        return Err(describe_exit(&status));
+    }
+    Ok(found)
+}
